@@ -56,6 +56,12 @@ Local Notation ser_good := (SmtSerProofs.ser_good cv) (only parsing).
 Local Notation ser_sorted_sound_lemma := (SmtSerProofs.ser_sorted_sound_lemma cv) (only parsing).
 Local Notation name_ok_intro := (SmtSerProofs.name_ok_intro cv) (only parsing).
 Local Notation noop_slice_latent := (SmtSerProofs.noop_slice_latent cv) (only parsing).
+Local Notation checked_pattern := (SmtParse.checked_pattern cv) (only parsing).
+
+(** the check of patches/0016 changes nothing where a pattern is accepted *)
+Lemma checked_ok st p r : parse_pattern st p = POk r -> checked_pattern st p = POk r.
+Proof. intros H. unfold SmtParse.checked_pattern. destruct cv; rewrite H; reflexivity. Qed.
+
 
 
 (** ** the machine on token sequences that come from S-expressions *)
@@ -148,7 +154,7 @@ Proof.
       - destruct items; [congruence | discriminate El].
       - rewrite rev_app_distr in E. cbn in E. inversion E; subst.
         rewrite forallb_app in Hp. apply andb_true_iff in Hp. destruct Hp as [_ Hp]. discriminate Hp. }
-    rewrite <- E. rewrite (split_at_open_items _ [] false stk Hp), app_nil_r, Hpat.
+    rewrite <- E. rewrite (split_at_open_items _ [] false stk Hp), app_nil_r, (checked_ok _ _ _ Hpat).
     destruct top; try congruence; reflexivity. }
   rewrite Hstep. reflexivity.
 Qed.
@@ -336,12 +342,13 @@ Proof.
 Qed.
 
 (** a token that is looked up: in the repaired reader every token that is not a numeral, [_] or [as] *)
-Lemma early_other_lookup st x : (cv = Fix -> kw_tok x = false) ->
+Lemma early_other_lookup st x : (cv <> Cur -> kw_tok x = false) ->
   early_other (Some st) x = POk (match nst_get st x with Some e => IExpr e | None => ISym x end).
 Proof.
   intros H. unfold SmtParse.early_other. destruct cv.
   - destruct (nst_get st x); reflexivity.
-  - rewrite (H eq_refl). cbn [negb]. destruct (nst_get st x); reflexivity.
+  - rewrite (H ltac:(discriminate)). cbn [negb]. destruct (nst_get st x); reflexivity.
+  - rewrite (H ltac:(discriminate)). cbn [negb]. destruct (nst_get st x); reflexivity.
 Qed.
 
 Lemma early_other_kw st x : kw_tok x = true -> (cv = Cur -> nst_get st x = None) ->
@@ -349,6 +356,7 @@ Lemma early_other_kw st x : kw_tok x = true -> (cv = Cur -> nst_get st x = None)
 Proof.
   intros Hd H. unfold SmtParse.early_other. destruct cv.
   - now rewrite (H eq_refl).
+  - now rewrite Hd.
   - now rewrite Hd.
 Qed.
 
@@ -440,7 +448,7 @@ Proof.
   unfold atom_item, ltok_of_atom. destruct h as [|c r]; [exact E|]. rewrite Hb. exact E.
 Qed.
 
-Lemma simple_not_kw n : is_simple_id n = true -> name_ok n = true -> (cv = Fix -> kw_tok n = false).
+Lemma simple_not_kw n : is_simple_id n = true -> name_ok n = true -> (cv <> Cur -> kw_tok n = false).
 Proof.
   intros Hs Hn Hcv. destruct (is_simple_id_loop n Hs) as [Hne H]. destruct n as [|c r]; [congruence|].
   unfold kw_tok.
@@ -450,7 +458,7 @@ Proof.
     unfold all_chars. cbn [str_forall]. rewrite id_num_digit in En. unfold is_dec_digit. unfold is_digit, cn in En. now rewrite En. }
   rewrite Hd. cbn [orb].
   (* in the repaired writer a simple identifier is not a reserved word *)
-  subst cv. pose proof (is_simple_id_fix_not_reserved _ Hs) as Hr.
+  pose proof (is_simple_id_fix_not_reserved cv _ Hcv Hs) as Hr.
   destruct (String.eqb_spec (String c r) "_") as [E | _]; [rewrite E in Hr; discriminate Hr|].
   destruct (String.eqb_spec (String c r) "as") as [E | _]; [rewrite E in Hr; discriminate Hr | reflexivity].
 Qed.
